@@ -261,6 +261,25 @@ def oracle(fmt='fits', first_nan_dec=True):
                     return True, ('precision' if abs(got - want) <= 1e-6 * abs(want) else 'values'), '%s row %d column %s: wrote %r, read back %r' % (fmt, k, col, want, got)
         if float(t['err_peak_flux'][0]) != -1:
             return True, 'marker', 'the -1 marker came back as %r' % float(t['err_peak_flux'][0])
+        # the reading side: sources rebuilt from the table carry the same values (an undefined value stays undefined)
+        back = cat.table_to_source_list(t)
+        if len(back) != len(comps):
+            return True, 'rebuilt-count', '%d sources rebuilt from %d rows' % (len(back), len(comps))
+        for k, (s, b) in enumerate(zip(comps, back)):
+            for col in ('ra', 'dec', 'peak_flux', 'int_flux', 'a', 'err_peak_flux'):
+                want, got = getattr(s, col), getattr(b, col)
+                try:
+                    gotf = float(real_np.ma.filled(got, real_np.nan)) if real_np.ma.is_masked(got) else float(got)
+                except Exception:
+                    gotf = float('nan')
+                if want != want:
+                    okv = gotf != gotf
+                else:
+                    okv = abs(gotf - want) <= 1e-6 * abs(want)
+                if not okv:
+                    return True, 'rebuilt-values', '%s: source %d rebuilt from the table has %s = %r, written %r' % (fmt, k, col, got, want)
+            if str(b.uuid).strip() != s.uuid or int(b.island) != s.island or int(b.flags) != s.flags:
+                return True, 'rebuilt-values', '%s: source %d rebuilt with uuid/island/flags %r/%r/%r' % (fmt, k, b.uuid, b.island, b.flags)
         return False, None, None
     except Exception as e:
         return True, 'raises-%s' % type(e).__name__, '%s: %r' % (fmt, e)
